@@ -141,6 +141,130 @@ def run_escape_job(job, build):
     return out
 
 
+ROFF_ALPHA = USER_ALPHA + [0x22]
+ROFF_OPS = {
+    # name: list of Roff API calls; user strings are given by their length in symbolic bytes
+    "SS1": [("control", "SS", [None])],
+    "TH3": [("control", "TH", [None, 0, None])],
+    "SS1+plain": [("control", "SS", [None]), ("plaintext", None)],
+    "plain": [("plaintext", None)],
+    "plain+SS1": [("plaintext", None), ("control", "SS", [None])],
+    "strip+plain": [("strip", True), ("plaintext", None)],
+    "text2": [("text", [("Bold", None), ("Roman", None)])],
+    "TP+text+plain": [("control0", "TP"), ("text", [("Bold", None)]), ("linebreak",), ("plaintext", None)],
+    "plain+text": [("plaintext", None), ("text", [("Italic", None)])],
+}
+
+
+def run_roff_job(job, build):
+    """the Roff builder API (control / control0 / plaintext / text / roff_linebreak / strip_newlines) followed by
+    Roff::render, all from MIR, user strings of symbolic bytes: whatever escaping mode the builder picks for a
+    user string is part of what is executed (no assumption about which modes carry user text)"""
+    prog = tok.load_program(build, "full")
+    ex = text_exec(prog, budget=1500000)
+    ops = ROFF_OPS[job["ops"]]
+    n = job["len"]
+    ap = job["ap"]
+    L = prog.layout
+    out = {"stats": None, "cex": [], "inconclusive": [], "samples": [], "nontrivial": 0, "obligations": 0}
+
+    def harness(ex):
+        user = []
+
+        def ustr(k):
+            if k == 0:
+                return ""
+            bs = [ex.fresh("u", 8) for _ in range(n if k is None else k)]
+            for b in bs:
+                ex.assume(z3.Or(*[b == a for a in ROFF_ALPHA]))
+            user.append(bs)
+            return BStr(tuple(bs))
+        roff = Cell(ex.call(parse_callee("Roff::new"), []), "roff")
+        me = Ref(roff, ())
+        for op in ops:
+            if op[0] == "control":
+                args = tuple(ustr(k) for k in op[2])
+                ex.call(parse_callee("Roff::control"), [me, op[1], PyIter("vec_into", Seq(args), 0)])
+            elif op[0] == "control0":
+                ex.call(parse_callee("Roff::control0"), [me, op[1]])
+            elif op[0] == "plaintext":
+                ex.call(parse_callee("Roff::plaintext"), [me, ustr(op[1])])
+            elif op[0] == "strip":
+                ex.call(parse_callee("Roff::strip_newlines"), [me, op[1]])
+            elif op[0] == "linebreak":
+                ex.call(parse_callee("Roff::roff_linebreak"), [me])
+            elif op[0] == "text":
+                parts = tuple((Adt("Font", L.variant_index("Font", f), ()), ustr(k)) for f, k in op[1])
+                ex.call(parse_callee("Roff::text"), [me, Ref(Cell(Seq(parts), "parts"), ())])
+        apv = Adt("Apostrophes", L.variant_index("Apostrophes", ap), ())
+        res = ex.call(parse_callee("Roff::render"), [me, apv])
+        return (user, res)
+
+    def on_path(ex, r):
+        if r.kind != "ok":
+            out["cex"].append({"kind": "roff-panics", "info": str(r.info), "ops": job["ops"]})
+            return
+        user, res = r.value
+        v = rda(res)
+        ob = list(v.b) if type(v) is BStr else list(v.encode())
+        if ex.pc:
+            out["nontrivial"] += 1
+        bad = roff_obligations(ex, ob, out)
+        for why, m in bad[:1]:
+            out["cex"].append({"kind": "roff-unsafe", "why": why, "frags": [["api", job["ops"], n]], "ap": ap,
+                               "user_text": [conc(m, u).decode("latin1") for u in user], "output": conc(m, ob).decode("latin1")})
+        if not bad and len(out["samples"]) < 1:
+            m = ex.model()
+            out["samples"].append({"roff_api": job["ops"], "user_text": [conc(m, u).decode("latin1") for u in user], "output": conc(m, ob).decode("latin1")[-120:]})
+    try:
+        ex.explore(harness, on_path, max_paths=100000)
+    except (Unmodelled, BoundExceeded, ExecError) as e:
+        out["inconclusive"].append("%s %s [%s]" % (type(e).__name__, e, "/".join(getattr(e, "stack", None) or ex.callstack[-3:])))
+    out["stats"] = dict(ex.stats)
+    out["models_used"] = dict(ex.model_hits)
+    out["fn_hits"] = dict(ex.fn_hits)
+    return out
+
+
+def roff_obligations(ex, ob, out):
+    """K1 / K2 over an output in which user bytes are still symbolic variables"""
+    bad = []
+    n = len(ob)
+    for p in range(n):
+        b = ob[p]
+        if not is_sym(b):
+            continue
+        out["obligations"] += 1
+        prev_ok = p > 0 and isinstance(ob[p - 1], int) and ob[p - 1] == 0x5C
+        if not prev_ok:
+            if ex.check(b == 0x5C) == z3.sat:
+                ex.solver.push()
+                ex.solver.add(b == 0x5C)
+                bad.append(("user backslash reaches the output unescaped", ex.model()))
+                ex.solver.pop()
+        pushed = False
+        if p == 0:
+            at_start = True
+        elif isinstance(ob[p - 1], int):
+            at_start = ob[p - 1] == 0x0A
+        else:
+            at_start = ex.check(ob[p - 1] == 0x0A) == z3.sat
+            if at_start:
+                ex.solver.push()
+                ex.solver.add(ob[p - 1] == 0x0A)
+                pushed = True
+        if at_start:
+            c = z3.Or(b == 0x2E, b == 0x27)
+            if ex.check(c) == z3.sat:
+                ex.solver.push()
+                ex.solver.add(c)
+                bad.append(("user text starts a line with a roff control character", ex.model()))
+                ex.solver.pop()
+        if pushed:
+            ex.solver.pop()
+    return bad
+
+
 # ------------------------------------------------------------------------------------------------
 
 TAGS = [("mono", "tt"), ("bold", "b"), ("italic", "i")]
@@ -700,6 +824,13 @@ def make_jobs(tier, seed, build):
                 for ap in ("Handle",) if k > 2 else ("Handle", "DontHandle"):
                     jobs.append({"id": "escape:%s:%d:%s" % ("+".join("o%d" % u[1] if u[0] == "own" else u[1] for u in seq), ul[0], ap),
                                  "kind": "escape", "frags": frags, "ap": ap})
+    for name in ROFF_OPS:
+        for n in (1, 2, 3) if tier == "quick" else (1, 2, 3, 4):
+            nu = sum(1 for op in ROFF_OPS[name] for k in ([op[1]] if op[0] == "plaintext" else [k for _, k in op[1]] if op[0] == "text" else op[2] if op[0] == "control" else []) if k is None)
+            if n * nu > (4 if tier == "quick" else 6):
+                continue
+            for ap in ("Handle", "DontHandle"):
+                jobs.append({"id": "roff:%s:%d:%s" % (name, n, ap), "kind": "roff", "ops": name, "len": n, "ap": ap})
     jobs.append({"id": "style", "kind": "style"})
     for tname, t in TEMPLATES.items():
         nt = sum(1 for k, _ in t if k == "T")
@@ -736,6 +867,8 @@ def run_job(job, build):
     k = job["kind"]
     if k == "escape":
         return run_escape_job(job, build)
+    if k == "roff":
+        return run_roff_job(job, build)
     if k == "style":
         return run_style_job(job, build)
     if k == "html":
@@ -750,6 +883,8 @@ def run_job(job, build):
 def finding_key(c):
     if c["kind"] == "roff-unsafe" and "backslash" in c["why"]:
         modes = [f[1] for f in c["frags"] if f[0] == "user"]
+        if any(f[0] == "api" and "control" in str(ROFF_OPS[f[1]]) for f in c["frags"]):
+            modes.append("Spaces")
         if "Spaces" in modes:
             return "roff-control-argument-backslash-unescaped"
     return None
@@ -795,7 +930,7 @@ def finish(results, jobs, build, out, tier, seed, wall):
                    "html": "7 block templates, text bytes over {< > & a space \\\\n}, total text length <= %d, full and short" % (4 if tier == "quick" else 5),
                    "style": "all 64 (current, new) pairs", "sections": "c1 c2 c3 c4 h2 g1 c7 c8 c9",
                    "documents": "markdown, html and manpage of %s: every command level has exactly one section, each section mentions the visible named items and commands of its level, hidden items are mentioned nowhere; text identical to the native build's" % " ".join(DOC_GRAMMARS)},
-        "jobs": {k: len([j for j in jobs if j["kind"] == k]) for k in ("escape", "style", "html", "sections", "doc", "gendoc")},
+        "jobs": {k: len([j for j in jobs if j["kind"] == k]) for k in ("escape", "roff", "style", "html", "sections", "doc", "gendoc")},
         "traces_validated_against_impl": sum(r.get("validated_agree", 0) for r in results),
         "functions_encoded": sorted(fw.merge_counts(results, "fn_hits")),
         "models_used": fw.merge_counts(results, "models_used"),
